@@ -1298,7 +1298,7 @@ fn finish_rules<const NS: usize, const K0: usize, const K1: usize, const K2: usi
     forget(d);
 }
 
-//@ harness props=C08,C11,C07 tier=quick unwind=8 unwindset=process_mode:7 mem_gb=4 timeout=600 native=no opt_covers=KF:C08:nosize-eof-code0-without-marker
+//@ harness props=C08,C11,C07,C17,C02 tier=quick unwind=8 unwindset=process_mode:7 mem_gb=4 timeout=600 native=no opt_covers=KF:C08:nosize-eof-code0-without-marker
 //@ bound: process(Finish): 4 abstract symbols kinds [0,0,0,0] (0 lit,1 marker,2 corrupt,3 three-byte) of 3 bytes, 0 trailing bytes, size Some(symbolic), symbolic code / initial length
 #[cfg_attr(kani, kani::proof)]
 #[cfg_attr(kani, kani::stub(std::fmt::format, crate::verif_common::stub_format))]
@@ -1318,7 +1318,7 @@ pub fn finish_sized_lit3_t4() {
     finish_rules::<3, 0, 0, 0, 0, 3, 4, true>()
 }
 
-//@ harness props=C08,C11,C07 tier=quick unwind=8 unwindset=process_mode:7 mem_gb=4 timeout=600 native=no opt_covers=KF:C08:nosize-eof-code0-without-marker
+//@ harness props=C08,C11,C07,C17,C02 tier=quick unwind=8 unwindset=process_mode:7 mem_gb=4 timeout=600 native=no opt_covers=KF:C08:nosize-eof-code0-without-marker
 //@ bound: process(Finish): 3 abstract symbols kinds [0,0,1,0] (0 lit,1 marker,2 corrupt,3 three-byte) of 2 bytes, 0 trailing bytes, size Some(symbolic), symbolic code / initial length
 #[cfg_attr(kani, kani::proof)]
 #[cfg_attr(kani, kani::stub(std::fmt::format, crate::verif_common::stub_format))]
@@ -1328,7 +1328,7 @@ pub fn finish_sized_lit2_marker_t0() {
     finish_rules::<3, 0, 0, 1, 0, 2, 0, true>()
 }
 
-//@ harness props=C08,C11,C07 tier=quick unwind=8 unwindset=process_mode:7 mem_gb=4 timeout=600 native=no opt_covers=KF:C08:nosize-eof-code0-without-marker
+//@ harness props=C08,C11,C07,C17,C02 tier=quick unwind=8 unwindset=process_mode:7 mem_gb=4 timeout=600 native=no opt_covers=KF:C08:nosize-eof-code0-without-marker
 //@ bound: process(Finish): 3 abstract symbols kinds [0,3,0,0] (0 lit,1 marker,2 corrupt,3 three-byte) of 2 bytes, 0 trailing bytes, size Some(symbolic), symbolic code / initial length
 #[cfg_attr(kani, kani::proof)]
 #[cfg_attr(kani, kani::stub(std::fmt::format, crate::verif_common::stub_format))]
@@ -1338,7 +1338,7 @@ pub fn finish_sized_wide_overshoot() {
     finish_rules::<3, 0, 3, 0, 0, 2, 0, true>()
 }
 
-//@ harness props=C08,C11,C07 tier=quick unwind=8 unwindset=process_mode:7 mem_gb=4 timeout=600 native=no opt_covers=KF:C08:nosize-eof-code0-without-marker
+//@ harness props=C08,C11,C07,C17,C02 tier=quick unwind=8 unwindset=process_mode:7 mem_gb=4 timeout=600 native=no opt_covers=KF:C08:nosize-eof-code0-without-marker
 //@ bound: process(Finish): 3 abstract symbols kinds [0,2,0,0] (0 lit,1 marker,2 corrupt,3 three-byte) of 2 bytes, 0 trailing bytes, size Some(symbolic), symbolic code / initial length
 #[cfg_attr(kani, kani::proof)]
 #[cfg_attr(kani, kani::stub(std::fmt::format, crate::verif_common::stub_format))]
